@@ -290,7 +290,7 @@ def _run_files():
     "reached here); other clock jumps (O1)",
     encodes=["csvpath/csvpaths.py:CsvPaths.run_time_str/current_run_time/clean/clear_run_coordination/<run methods>",
              "csvpath/managers/results/result_serializer.py:ResultSerializer.get_run_dir", "csvpath/managers/results/results_manager.py:ResultsManager.get_run_time_str/start_run/save"],
-    tiers={"quick": {"timeout": 1800, "shards": product(m1=["collect_paths"], m2=["collect_paths", "fast_forward_by_line"], o1=[False, True])},
+    tiers={"quick": {"timeout": 1800, "shards": product(m1=["collect_paths"], m2=["collect_paths", "fast_forward_by_line", "fast_forward_paths", "next_paths"], o1=[False, True])},
            "thorough": {"timeout": 6000, "shards": product(m1=["collect_paths", "next_by_line"], m2=["collect_paths", "fast_forward_paths", "next_paths", "collect_by_line", "fast_forward_by_line", "next_by_line"], o1=[False, True])}},
 )
 def own_directory(m1: str, m2: str, o1: bool, r1: bool, s1: bool, o2: bool, r2: bool, s2: bool) -> str:
@@ -333,4 +333,49 @@ def own_directory(m1: str, m2: str, o1: bool, r1: bool, s1: bool, o2: bool, r2: 
         with NoTracing():
             _cps.datetime = saved
             kitpaths.cleanup(root)
+    return problems
+
+
+# ------------------------------------------------------------------ O3 (E1 kernel) the collision loop of get_run_dir
+@ob(
+    "C10",
+    "O3-unused-run-dir",
+    pre=["0 <= k <= {KHI}"],
+    post="_ == ''",
+    bound="ResultSerializer.get_run_dir for a clock reading whose plain directory and its first k-1 collision directories (.0 .. .k-2) "
+    "already exist, k symbolic 0..KHI (= k earlier runs of the same group in the same second): the directory returned does not exist "
+    "yet, lies under archive/<group>/ and starts with the time stamp",
+    outside="more than KHI same-second runs",
+    encodes=["csvpath/managers/results/result_serializer.py:ResultSerializer.get_run_dir/get_run_dir_name_from_datetime"],
+    tiers={"quick": {"timeout": 300, "K": {"KHI": 6}}},
+)
+def unused_run_dir(k: int) -> str:
+    from csvpath.managers.results.result_serializer import ResultSerializer
+
+    with NoTracing():
+        root = os.path.join(kit.workdir(), "rundir%d" % os.getpid())
+        import shutil
+
+        shutil.rmtree(root, ignore_errors=True)
+        os.makedirs(root)
+        rs = ResultSerializer(os.path.join(root, "archive"))
+    stamp = rs.get_run_dir_name_from_datetime(T0)
+    existing = []
+    for i in range(k):
+        name = stamp if i == 0 else "%s.%d" % (stamp, i - 1)
+        existing.append(name)
+    with NoTracing():
+        for name in existing:
+            os.makedirs(os.path.join(root, "archive", "g", name))
+    got = rs.get_run_dir(paths_name="g", run_time=T0)
+    problems = ""
+    with NoTracing():
+        base = os.path.basename(got)
+        if os.path.exists(got):
+            problems += f"{got} already exists (earlier runs: {existing}); "
+        if os.path.dirname(got) != os.path.join(root, "archive", "g"):
+            problems += f"{got} is not under archive/g; "
+        if not base.startswith(stamp):
+            problems += f"{base} does not start with {stamp}; "
+        shutil.rmtree(root, ignore_errors=True)
     return problems
